@@ -6,6 +6,7 @@ symmetry and rotation links keep their relation for leader moves of any size; `u
 import CBV.Lemmas.C17
 import CBV.Lemmas.C17Unique
 import Mathlib.Algebra.Order.Field.Basic
+import CBV.Gen.TC17
 
 namespace CBV.C17
 open CBV CBV.C09
